@@ -38,6 +38,7 @@ import SigModel.Lemmas.C10
 import SigModel.Model.WalRecover
 import SigModel.Lemmas.C10R
 import SigModel.Lemmas.C10Rb
+import SigModel.Lemmas.C10Rc
 
 namespace SigModel.Props.C10
 open SigModel.Wal
@@ -267,6 +268,77 @@ theorem parseName_render (f : WalName) (hs : f.seg < 18446744073709551616) (hb :
     parseName (render f) = some { mId := dec f.shard, seg := f.seg, blk := f.blk,
                                   key := dec f.shard ++ '_' :: (dec f.seg ++ '_' :: dec f.blk) } :=
   SigModel.Lemmas.C10R.parseName_render f hs hb
+
+/-! ### crash points INSIDE an operation (quantifier of the property: "every instruction boundary of the WAL
+append/rotate/recover code").  The steps of an operation are the ones whose completion is visible on disk. -/
+
+/-- block files after: the writer dies inside a block-rotation pass right after `m` completed steps of rotateBlock
+(flushBlock ; DeleteWAL of every WAL file of the block, in creation order ; initNewDpWal), restart recovers completely -/
+def diskAfterRotateCrash (cap shard : Nat) (h : List Op) (m : Nat) : Disk :=
+  let st := blockRotateCrash m (run cap shard h)
+  applyFlushes st.durable (recover (rawOf st.files))
+
+/-- full strength: wherever rotateBlock is interrupted, every completed datapoint is still in its block afterwards
+(the datapoints that were only buffered may or may not be there: the completed ones are a PREFIX of the block) -/
+def BlockRotationCrashSafe : Prop :=
+  ∀ (cap shard : Nat) (h : List Op) (m : Nat) (k : Key), specBlock cap shard h k <+: lookup k (diskAfterRotateCrash cap shard h m)
+
+/-- C10.R7 FALSE for the code as it is: killed after flushBlock and ONE of two DeleteWALs, the complete block file is
+rebuilt by recovery from the leftover WAL file alone (replayed on the real code: known finding
+sig=walrecover/crash-in-block-rotation/completed-append-lost). -/
+theorem block_rotation_crash_safe_counterexample : ¬ BlockRotationCrashSafe := by
+  intro hall
+  have h := hall 1000 0 SigModel.Lemmas.C10R.hx 2 (dec 0, 0, 0)
+  have hc := SigModel.Lemmas.C10R.hx_rotate_crash
+  have e : diskAfterRotateCrash 1000 0 SigModel.Lemmas.C10R.hx 2 = SigModel.Lemmas.C10R.diskAfterRotateCrash 1000 0 SigModel.Lemmas.C10R.hx 2 := rfl
+  rw [e, hc.1, hc.2] at h
+  revert h
+  decide
+
+/-- guard: only flushBlock completed (m = 1), or every WAL file of the block is already deleted -/
+def rotateCrashGuard (cap shard : Nat) (h : List Op) (m : Nat) : Prop := m = 1 ∨ (run cap shard h).files.length < m
+
+/-- C10.R7 (partial) under that guard (and at most 10 WAL files) the completed datapoints of every block survive an
+interrupted block rotation, in order -/
+theorem rotate_crash_partial (cap shard : Nat) (h : List Op) (m : Nat) (hm : rotateCrashGuard cap shard h m)
+    (hg : fewWalFiles cap shard h)
+    (hs : (run cap shard h).seg < 18446744073709551616) (hb : (run cap shard h).blkNum < 18446744073709551616) (k : Key) :
+    specBlock cap shard h k <+: lookup k (diskAfterRotateCrash cap shard h m) :=
+  SigModel.Lemmas.C10R.rotate_crash_partial cap shard h m hm hg hs hb k
+
+example : rotateCrashGuard 1000 0 SigModel.Lemmas.C10R.hx 1 ∧ rotateCrashGuard 1000 0 SigModel.Lemmas.C10R.hx 3 := by
+  constructor <;> (unfold rotateCrashGuard; decide +kernel)
+
+/-- full strength: wherever the FIRST restart's RecoverWALData is interrupted (after `m` completed steps: deleteWalFile
+of each file, then flushBlock of the group), a second restart ends with exactly the completed datapoints on disk -/
+def RecoveryCrashSafe : Prop :=
+  ∀ (cap shard : Nat) (h : List Op) (m : Nat) (k : Key), fewWalFiles cap shard h →
+    lookup k (diskAfterCrashedRecovery m (dirAfter cap shard h) (durableBlocks cap shard h)) = specBlock cap shard h k
+
+/-- C10.R8 FALSE for the code as it is: RecoverWALData deletes each WAL file before the rebuilt block is flushed
+(replayed on the real code: known finding sig=walrecover/crash-in-recovery/completed-append-lost). -/
+theorem recovery_crash_safe_counterexample : ¬ RecoveryCrashSafe := by
+  intro hall
+  have h := hall 1000 0 SigModel.Lemmas.C10R.hx 2 (dec 0, 0, 0) (by unfold fewWalFiles; decide +kernel)
+  have hc := SigModel.Lemmas.C10R.hx_recover_crash
+  have hs := SigModel.Lemmas.C10R.hx_rotate_crash
+  rw [hc.2, hs.1] at h
+  revert h
+  decide
+
+/-- guard: the restart died before the first step of RecoverWALData or after its last one -/
+def recoverCrashGuard (cap shard : Nat) (h : List Op) (m : Nat) : Prop :=
+  m = 0 ∨ (recoverActions (dirAfter cap shard h)).length ≤ m
+
+/-- C10.R8 (partial) -/
+theorem recover_crash_partial (cap shard : Nat) (h : List Op) (m : Nat) (hm : recoverCrashGuard cap shard h m)
+    (hg : fewWalFiles cap shard h)
+    (hs : (run cap shard h).seg < 18446744073709551616) (hb : (run cap shard h).blkNum < 18446744073709551616) (k : Key) :
+    lookup k (diskAfterCrashedRecovery m (dirAfter cap shard h) (durableBlocks cap shard h)) = specBlock cap shard h k :=
+  SigModel.Lemmas.C10R.recover_crash_partial cap shard h m hm hg hs hb k
+
+example : recoverCrashGuard 1000 0 SigModel.Lemmas.C10R.hx 0 ∧ recoverCrashGuard 1000 0 SigModel.Lemmas.C10R.hx 3 := by
+  constructor <;> (unfold recoverCrashGuard; decide +kernel)
 
 /-- C10.R6 the Oracle's shortcut for generated bulk loads (`ingestMany`) is the step-by-step model -/
 theorem ingestMany_eq_foldl (cap name : Nat) (roll : Bool) (ds : List Dp) (st : WState)
